@@ -42,7 +42,8 @@ class Ob:
     replay_src: str = ''            # file under /repo/src whose unwoven text the replay includes (informational)
     known_key: str = ''             # stable key used in known-findings.txt
     canaries: List[str] = field(default_factory=list)   # regexes of woven canaries (outside the harness file) that must be hit
-    stream_replay: str = ''         # name of a stream-level replay generator in lib/streamgen.py (runs the real lbzip2 binary)
+    trace_vars: List[str] = field(default_factory=list)  # extra (ghost) variables whose last traced value feeds the replay
+    stream_replay: str = ''       # name of a stream-level replay generator in lib/streamgen.py (runs the real lbzip2 binary)
     twin: str = ''                  # name of an explicit bounded obligation used to find a concrete input when this one fails
 
     @property
